@@ -290,6 +290,12 @@ func (failingReader) Read(b []byte) (int, error) { return 0, fmt.Errorf("injecte
 // draws left behind (a buffer handed back twice, a half-updated table) must not be shared between
 // the goroutines that draw afterwards.
 func afterFaults(charRecipes []*spg.CharRecipe, wlRecipes []*spg.WLRecipe) {
+	for cycle := 0; cycle < 6; cycle++ {
+		afterFaultsOnce(charRecipes, wlRecipes)
+	}
+}
+
+func afterFaultsOnce(charRecipes []*spg.CharRecipe, wlRecipes []*spg.WLRecipe) {
 	crand.Reader = failingReader{}
 	for i := 0; i < 16; i++ {
 		func() {
@@ -305,7 +311,7 @@ func afterFaults(charRecipes []*spg.CharRecipe, wlRecipes []*spg.WLRecipe) {
 	crand.Reader = unsyncReader{}
 	var wg sync.WaitGroup
 	start := make(chan struct{})
-	for w := 0; w < 8; w++ {
+	for w := 0; w < 16; w++ {
 		wg.Add(1)
 		go func(w int) {
 			defer wg.Done()
@@ -315,7 +321,7 @@ func afterFaults(charRecipes []*spg.CharRecipe, wlRecipes []*spg.WLRecipe) {
 				}
 			}()
 			<-start
-			for k := 0; k < 400; k++ {
+			for k := 0; k < 150; k++ {
 				atomic.AddInt64(&calls, 1)
 				if k%2 == 0 {
 					r := charRecipes[(w+k)%4]
@@ -365,8 +371,11 @@ func (l lockstepReader) Read(b []byte) (int, error) {
 		b[i] = 0
 	}
 	if len(b) == 4 {
-		b[3] = byte(v * 7)
-		b[2] = byte(v % 3)
+		// 24 mixed bits under a zero top byte: below the rejection limit of every bound
+		z := uint64(v) * 0x9e3779b97f4a7c15
+		z = (z ^ (z >> 30)) * 0xbf58476d1ce4e5b9
+		z ^= z >> 27
+		b[1], b[2], b[3] = byte(z>>40), byte(z>>32), byte(z>>24)
 	}
 	return len(b), nil
 }
@@ -381,7 +390,14 @@ func crowd(wl *spg.WordList) {
 	want := r.Entropy()
 	cr := &spg.CharRecipe{Length: 6, Allow: spg.Lowers | spg.Digits}
 	cwant := cr.Entropy()
-	for round := 0; round < 2; round++ {
+	// coin flips under a crowd: every word of this list has a capital form, so every flip shows
+	capList, _ := spg.NewWordList([]string{"alpha", "bravo", "charlie", "delta"})
+	rr := spg.NewWLRecipe(4, capList)
+	rr.Capitalize = spg.CSRandom
+	rr.SeparatorChar = "-"
+	rwant := rr.Entropy()
+	var capitals, flips int64
+	for round := 0; round < 3; round++ {
 		arrived, gate := 0, make(chan struct{})
 		crand.Reader = lockstepReader{n: n, mu: &sync.Mutex{}, arrived: &arrived, gate: &gate}
 		var wg sync.WaitGroup
@@ -414,15 +430,32 @@ func crowd(wl *spg.WordList) {
 					if p.Entropy != want {
 						fail("crowd of %d callers: password entropy %v, the recipe's is %v", n, p.Entropy, want)
 					}
-				} else {
+				} else if round == 1 {
 					p, err := cr.Generate()
 					if err != nil || p == nil || len(p.Tokens()) != 6 || p.Entropy != cwant {
 						fail("crowd of %d callers: character recipe: err=%v", n, err)
+					}
+				} else {
+					p, err := rr.Generate()
+					if err != nil || p == nil || len(p.Tokens().Atoms()) != 4 || p.Entropy != rwant {
+						fail("crowd of %d callers: 'random' capitalisation recipe: err=%v", n, err)
+						return
+					}
+					for _, a := range p.Tokens().Atoms() {
+						atomic.AddInt64(&flips, 1)
+						if a[0] >= 'A' && a[0] <= 'Z' {
+							atomic.AddInt64(&capitals, 1)
+						}
 					}
 				}
 			}(w)
 		}
 		wg.Wait()
+	}
+	// 1200 flips of a fair coin fed well-mixed bits: between 40 and 60 percent heads (more than six
+	// standard deviations either way)
+	if flips > 0 && (capitals*10 < flips*4 || capitals*10 > flips*6) {
+		fail("crowd of %d callers, Capitalize 'random': %d of %d words capitalised — the coin flips of concurrent callers are not fair coins", n, capitals, flips)
 	}
 }
 
@@ -464,6 +497,11 @@ func firstUse(g *rng, rounds int) {
 		wantCR := twinCR.Entropy()
 		wantAlpha := twinCR.Alphabet()
 		wl, rs, cr, _ := mk()
+		// a fresh small list that contains the empty word (NewWordList accepts and counts it): the first
+		// time the empty word is drawn from this list, it is drawn by several goroutines at once
+		small, _ := spg.NewWordList([]string{"", "a", "b"})
+		sr := spg.NewWLRecipe(6, small)
+		sr.SeparatorChar = "-"
 		start := make(chan struct{})
 		var wg sync.WaitGroup
 		for w := 0; w < 12; w++ {
@@ -477,6 +515,13 @@ func firstUse(g *rng, rounds int) {
 					}
 				}()
 				<-start
+				if p, err := sr.Generate(); err != nil || p == nil || len(p.Tokens().Atoms()) > 6 {
+					fail("first use, list with the empty word: %v", err)
+				}
+				if small.Size() != 3 || sr.Size() != 3 {
+					fail("first use, list with the empty word: Size() changed")
+				}
+				_ = sr.Entropy()
 				for k := 0; k < 3; k++ {
 					i := (w + k) % len(rs)
 					if w%2 == 0 {
